@@ -464,9 +464,15 @@ func ruleBroadcast(c *Ctx, rule string) {
 				c.Funcs[funcName(f)] = true
 				key := fmt.Sprintf("%s/put-then-Broadcast", funcName(f))
 				okAll := true
+				deferred := false
+				for _, di := range f.Blocks[0].Instrs {
+					if d, ok := di.(*ssa.Defer); ok && condCall(d, "Broadcast") {
+						deferred = true
+					}
+				}
 				for _, rb := range f.Blocks {
 					ret, isRet := rb.Instrs[len(rb.Instrs)-1].(*ssa.Return)
-					if !isRet || !reachesInstr(snd, ret) {
+					if !isRet || !reachesInstr(snd, ret) || deferred {
 						continue
 					}
 					if !mustPassBetween(snd, ret, func(i ssa.Instruction) bool { return condCall(i, "Broadcast") }) {
@@ -551,6 +557,30 @@ func ruleCloseBySender(c *Ctx, rule, short string) {
 				for _, an := range f.AnonFuncs {
 					if funcName(an) != sender {
 						check(an)
+					}
+				}
+				if closer != nil && closer.Parent() == f {
+					// joined first? a WaitGroup.Wait or a receive that dominates the close
+					joined := false
+					for _, jb := range f.Blocks {
+						for _, ji := range jb.Instrs {
+							isJoin := false
+							if call, ok := ji.(*ssa.Call); ok {
+								if g := call.Call.StaticCallee(); g != nil && g.Name() == "Wait" && g.Signature.Recv() != nil && isNamed(g.Signature.Recv().Type(), "sync", "WaitGroup") {
+									isJoin = true
+								}
+							}
+							if u, ok := ji.(*ssa.UnOp); ok && u.Op == token.ARROW && chanOrigin(u.X, f) != ssa.Value(mk) {
+								isJoin = true
+							}
+							if _, isDefer := closer.(*ssa.Defer); isJoin && !isDefer && jb.Dominates(closer.Block()) && (jb != closer.Block() || instrIndex(jb, ji) < instrIndex(closer.Block(), closer)) {
+								joined = true
+							}
+						}
+					}
+					if joined {
+						c.ok(rule, key, closer.Pos(), "closed by the parent only after it has joined the sending goroutine")
+						continue
 					}
 				}
 				if closer != nil {
